@@ -38,3 +38,54 @@ def impl_rep_direct(case):
         out["prod"] = p
         out["inexact"] = inex or inex2
     return out
+
+
+# ------------------------------------------------------------------ hierarchies
+
+def _ep(e):
+    return e.port_name if e.routine_name is None else f"{e.routine_name}.{e.port_name}"
+
+
+def walk_compiled(c, flags):
+    def ex(v):
+        e, inex = from_sympy(v)
+        if inex:
+            flags["inexact"] = True
+        return e
+
+    rep = None
+    if c.repetition is not None:
+        s = c.repetition.sequence
+        k = s.type
+        if k == "constant":
+            seq = {"kind": k, "multiplier": ex(s.multiplier)}
+        elif k == "arithmetic":
+            seq = {"kind": k, "initial_term": ex(s.initial_term), "difference": ex(s.difference)}
+        elif k == "geometric":
+            seq = {"kind": k, "ratio": ex(s.ratio)}
+        elif k == "closed_form":
+            seq = {"kind": k, "sum": None if s.sum is None else ex(s.sum), "prod": None if s.prod is None else ex(s.prod),
+                   "num_terms_symbol": ex(s.num_terms_symbol)}
+        else:
+            seq = {"kind": k, "term_expression": ex(s.term_expression), "iterator_symbol": str(s.iterator_symbol)}
+        rep = {"count": ex(c.repetition.count), "sequence": seq}
+    return {
+        "name": c.name, "type": c.type, "input_params": list(c.input_params),
+        "ports": [{"name": p.name, "direction": str(getattr(p.direction, "value", p.direction)), "size": ex(p.size)} for p in c.ports.values()],
+        "resources": [{"name": r.name, "type": r.type.value, "value": ex(r.value)} for r in c.resources.values()],
+        "connections": [[_ep(s), _ep(t)] for s, t in c.connections.items()],
+        "repetition": rep,
+        "constraints": [{"lhs": ex(k.lhs), "rhs": ex(k.rhs), "status": k.status.name} for k in c.constraints],
+        "children": [walk_compiled(ch, flags) for ch in c.children.values()],
+        "children_order": list(c.children_order),
+    }
+
+
+def impl_hier_compile(case):
+    from bartiq import compile_routine
+    from hier import to_qref
+
+    flags = {"inexact": False}
+    res = compile_routine(to_qref(case["routine"]))
+    tree = walk_compiled(res.routine, flags)
+    return {"tree": tree, "inexact": flags["inexact"]}
